@@ -295,7 +295,8 @@ func whPrologue(r *gen.Rand, maxBundles int) ([]whStep, []string, map[string][]i
 	return steps, repos, byRepo
 }
 
-func whGen(prop string, r *gen.Rand, first bool) *whCase {
+// big: -1, or which of the delete-files cases on bundles with several file lists to generate
+func whGen(prop string, r *gen.Rand, big int) *whCase {
 	cs := &whCase{}
 	switch prop {
 	case "C08":
@@ -335,9 +336,46 @@ func whGen(prop string, r *gen.Rand, first bool) *whCase {
 	case "C09":
 		steps, repos, _ := whPrologue(r, 3)
 		target := repos[r.Intn(len(repos))]
-		if first { // delete-files on a bundle with several file lists (every run)
-			steps = append(steps, whStep{Op: "bigbundle", Repo: target, N: []int{1001, 1002, 1003}[r.Intn(3)], Bundle: -1})
-			steps = append(steps, whStep{Op: "delentries", Repo: target, Paths: []string{"big/f00003", "big/f01000", "common.txt"}[:r.Range(1, 3)], Bundle: -1, Judge: true})
+		if big >= 0 { // delete-files on bundles with several file lists
+			name := func(j int) string { return fmt.Sprintf("big/f%05d", j) }
+			n := []int{1001, 1002, 1003}[r.Intn(3)]
+			variant := big
+			if big >= 2 {
+				n = []int{1000, 1001, 1999, 2000, 2001, 2500}[r.Intn(6)]
+				variant = r.Intn(6)
+			} else if big == 1 {
+				n = 2001 + r.Intn(2)
+			}
+			var paths []string
+			switch variant {
+			case 0: // a few entries of the first and second list
+				paths = []string{"big/f00003", "big/f01000", "common.txt"}[:r.Range(1, 3)]
+			case 1: // the whole last list and an early entry: one list fewer
+				for j := (n - 1) / 1000 * 1000; j < n; j++ {
+					paths = append(paths, name(j))
+				}
+				paths = append(paths, name(3))
+			case 2: // the whole first list
+				for j := 0; j < 1000 && j < n; j++ {
+					paths = append(paths, name(j))
+				}
+			case 3: // everything
+				for j := 0; j < n; j++ {
+					paths = append(paths, name(j))
+				}
+			case 4: // the last entry only
+				paths = []string{name(n - 1)}
+			default: // one entry of every list
+				for j := 5; j < n; j += 1000 {
+					paths = append(paths, name(j))
+				}
+			}
+			steps = append(steps, whStep{Op: "bigbundle", Repo: target, N: n, Bundle: -1})
+			if r.Bool() { // another bundle of the repository holding some of the paths
+				steps = append(steps, whStep{Op: "upload", Repo: target, Files: []world.File{{Name: "big/f00003", Data: []byte("x")}, {Name: "keep", Data: []byte("y")}}, Bundle: -1})
+			}
+			steps = append(steps, whStep{Op: "delentries", Repo: target, Paths: paths, Bundle: -1, Judge: true})
+			steps = append(steps, whStep{Op: "listbundles", Repo: target, Bundle: -1})
 			cs.Steps = steps
 			cs.Sig = "delete-entries-multi-index"
 			return cs
@@ -457,7 +495,7 @@ func whProp(prop string) propFn {
 		c.PerFile = 2
 		c.Rule = map[string]string{
 			"C08": "histories of label set / overwrite / delete / get / prefix-filtered listing over 2..4 repositories with prefix-related names (r, r2, r-x, repo, repo2), label names from the documented alphabet (semver-looking and not) plus hostile names (slash, space, dot, empty, 'label.yaml', unicode letters), unknown repositories; stores snapshotted around a quarter of the assignments; non-trivial = history with at least three successful label operations, distinct by steps",
-			"C09": "histories creating 2..4 prefix-related repositories with bundles sharing content, leftovers of interrupted uploads and labels, followed by delete / rename (also onto an existing name) / delete-files with full store snapshots before and after, then listings of every repository; concurrent creation of one repository name by 2..8 goroutines; non-trivial = judged operation that succeeded, distinct by steps",
+			"C09": "histories creating 2..4 prefix-related repositories with bundles sharing content, leftovers of interrupted uploads and labels, followed by delete / rename (also onto an existing name) / delete-files (also on bundles of 1000..2500 entries in several file lists: a few entries, a whole list, the last entry, everything) with full store snapshots before and after, then listings of every repository; concurrent creation of one repository name by 2..8 goroutines; non-trivial = judged operation that succeeded, distinct by steps",
 			"C10": "histories of 0..7 bundles per repository with labels (semver and not) and leftovers of interrupted uploads older and newer than the committed bundles, squashed with retain-N 1..5 and each retain-tags option, snapshots before and after, latest-bundle resolution before and after; non-trivial = squash that removed at least one bundle, distinct by steps",
 		}[prop]
 		emit := func(cs *whCase) {
@@ -498,7 +536,11 @@ func whProp(prop string) propFn {
 			n = 500
 		}
 		for i := 0; i < n; i++ {
-			cs := whGen(prop, r, i == 0)
+			big := -1
+			if prop == "C09" && (i < 2 || (!c.Quick() && i < 14)) {
+				big = i
+			}
+			cs := whGen(prop, r, big)
 			whRun(cs, r)
 			emit(cs)
 		}
